@@ -13,7 +13,7 @@ mech = "\n".join("  - %s (%s)" % (m.get('name'), m.get('where')) for m in rec['a
 EXTRA = {"": "", "B": "Additional requirement for this run: avoid the obvious one-token changes (a flipped comparison, an off-by-one constant, a dropped `!`). Prefer (a) refactorings that move or merge code across two functions, (b) two cooperating edits that each look fine alone, (c) changes to caching / incremental state / bookkeeping that only matter after backtracking or on a second call, (d) changes in helper files OUTSIDE the ones listed above that the listed code relies on. At least two of your changes must be of kinds (a)-(d).\n\n", "C": "Additional requirement for this run: every change must be made in a file that is NOT among the files listed above (helpers, containers, basic types, contexts, statistics, option parsing, front-end glue) and must still break the property through the listed code relying on it.\n\n", "D": "Additional requirement for this run: do not merely alter an existing expression. Each change must ADD behaviour the way an optimisation or feature patch does: a new fast path or early return, a small cache / memo of a previous result, a special-case branch for a 'trivial' situation, a reordering of two steps for efficiency, a new default for an option, or a helper that replaces two similar code fragments (at least ~5 changed lines each). The added code must be wrong only in a corner the author plausibly overlooked. The changes may be in the listed files or in files they rely on.\n\n"}[STYLE]
 print(f"""You are helping to evaluate a verification tool for the Rust project ConSol-Lab/Pumpkin (a lazy-clause-generation constraint programming solver). Your job is to play the role of a developer who introduces a subtle bug.
 
-Your working copy is a git worktree at {wt} (a full checkout of the repository; build with `cargo build --offline`, test with `cargo test --workspace --no-fail-fast --offline`; there is NO network). Work ONLY inside {wt} and write your results to {out}. Do not read or write anything under /verif or /repo, and do not look at other directories under /tmp.
+Your working copy is a git worktree at {wt} (a full checkout of the repository; build with `cargo build --offline`, test with `cargo test --workspace --no-fail-fast --offline`; there is NO network). Work ONLY inside {wt} (NEVER use `git stash` — the stash is shared with other checkouts of this repository; to get back to the clean tree save your change with `git diff > file`, run `git checkout -- .`, and re-apply with `git apply file`) and write your results to {out}. Do not read or write anything under /verif or /repo, and do not look at other directories under /tmp.
 
 The property the project is supposed to guarantee:
 
